@@ -110,6 +110,11 @@ def shapes(quick):
     reg('dt-kathmandu', lambda h, l: h.dt(2021, 1, 15, 0, 0, 1, 0, 20700, 'Asia/Kathmandu'))
     reg('dt-london-winter', lambda h, l: h.dt(2021, 1, 15, 12, 0, 0, 0, 0, 'Europe/London'))
     reg('dt-reykjavik', lambda h, l: h.dt(2021, 7, 15, 12, 0, 0, 0, 0, 'Atlantic/Reykjavik'))
+    # sub-second parts away from UTC (positive / negative offsets, milli / micro / nano digits)
+    reg('dt-kolkata-frac', lambda h, l: h.dt(2021, 6, 15, 13, 45, 10, 250000000, 19800, 'Asia/Kolkata'))
+    reg('dt-gmt-5-ns', lambda h, l: h.dt(2021, 3, 4, 5, 6, 7, 123456789, -5 * 3600, 'Etc/GMT+5'))
+    reg('dt-stjohns-ms', lambda h, l: h.dt(2021, 1, 15, 12, 0, 0, 5000000, -12600, 'America/St_Johns'))
+    reg('dt-utc-ns', lambda h, l: h.dt(2021, 3, 4, 5, 6, 7, 1, 0, 'UTC'))
     # zone ids without an area prefix
     reg('dt-japan', lambda h, l: h.dt(2021, 1, 15, 12, 0, 0, 0, 32400, 'Japan'))
     reg('dt-singapore', lambda h, l: h.dt(2021, 1, 15, 12, 0, 0, 0, 28800, 'Singapore'))
